@@ -440,3 +440,9 @@ def run(prog: Program, res: Result) -> None:  # noqa: PLR0912, PLR0915
     from checks.shared import check_unconditional_contributions
 
     check_unconditional_contributions(prog, res, "C15.R7")
+
+    # ------------------------------------------------------------------ R8 message line numbers and error positions use one search
+    res.rule("C15.R8", "a message's line number is found by the same offset -> line search as error positions: messages.line_number, line_number_factory._line_number and LiquidError._error_context agree after normalisation and report `<index of the line found> + 1` (shared with C17.R8)")
+    from checks.C17 import check_line_searches
+
+    check_line_searches(prog, res, "C15.R8")
